@@ -55,6 +55,11 @@ func newC11(id int, kind string, sess []SessSpec) *c11Case {
 }
 
 func (c *c11Case) send(i int, data []byte, what string) {
+	if c.spec.Sessions[i].Transport != "" {
+		c.spec.Steps = append(c.spec.Steps, Step{Sess: i, Op: "send", Data: data, PauseMs: 30})
+		c.actions = append(c.actions, fmt.Sprintf("s%d:%s", i, what))
+		return
+	}
 	for _, d := range [][]byte{data, {0xff}} {
 		c.spec.Steps = append(c.spec.Steps, Step{Sess: i, Op: "send", Data: d})
 		c.sched = append(c.sched, fmt.Sprintf("SSend %d%%nat %s", i, Hx(d)))
@@ -80,6 +85,12 @@ func (c *c11Case) update(i int, f ruFields, what string, r *Rng) {
 }
 
 func (c *c11Case) hang(i int) {
+	if c.spec.Sessions[i].Transport != "" {
+		c.spec.Steps = append(c.spec.Steps, Step{Sess: i, Op: "hangup"}, Step{Sess: i, Op: "raw", PauseMs: 60})
+		c.hung[i] = true
+		c.actions = append(c.actions, fmt.Sprintf("s%d:hangup", i))
+		return
+	}
 	c.spec.Steps = append(c.spec.Steps, Step{Sess: i, Op: "hangup"})
 	c.sched = append(c.sched, fmt.Sprintf("SHang %d%%nat", i))
 	c.hung[i] = true
@@ -219,6 +230,35 @@ func genCases(c *Ctx) []*c11Case {
 			}
 		}
 	}
+	// B'. before the handshake: a reject message / other datagrams first
+	for k := 0; k < 3; k++ {
+		cs := newC11(0, "pre:reject-first", []SessSpec{{Cost: 1}, {Cost: 1}})
+		switch k {
+		case 0:
+			cs.send(0, []byte{3, '[', ']'}, "reject-message")
+			cs.expect[0] = "closed"
+			cs.handshake(0, "alpha", nil) // never read: the session is gone
+			cs.hsSent[0] = false
+		case 1:
+			cs.send(0, []byte("\x01{not json"), "bad-json")
+			cs.send(0, []byte{}, "empty")
+			cs.send(0, []byte("\x02{}"), "advert")
+			cs.send(0, dataPacket(5, nameHash("alpha"), nameHash(selfID), "c", "probe", nil), "data")
+			cs.handshake(0, "alpha", nil)
+			cs.expect[0] = "open"
+		default:
+			cs.send(0, []byte("\x01[1,2]"), "update-not-an-object")
+			cs.send(0, []byte{3}, "reject-message")
+			cs.expect[0] = "closed"
+		}
+		cs.handshake(1, "alpha", nil)
+		if k == 1 {
+			cs.expect[1] = "rejected"
+		} else {
+			cs.expect[1] = "open"
+		}
+		add(cs)
+	}
 	// C. 2..3 sessions, every order of handshake release, then every order of departure
 	idSets := [][]string{{"alpha", "alpha"}, {"alpha", "beta"}, {"alpha", "alpha", "alpha"}, {"alpha", "alpha", "beta"}, {"alpha", "beta", "gamma"}, {"alpha", "", selfID}}
 	for _, ids := range idSets {
@@ -257,6 +297,45 @@ func genCases(c *Ctx) []*c11Case {
 				add(cs)
 			}
 		}
+	}
+	// T. admission through every real backend (listeners, dialers, TLS, websocket, embedded):
+	// admissible / empty / own / not-allowed ID; an admitted stream peer then hangs up and a
+	// second session announces the same ID
+	for _, tr := range []string{"tcp", "tls", "udp", "ws", "wss", "tcp-dial", "udp-dial", "ws-dial", "ext", "extws"} {
+		for _, id := range []string{"alpha", "", selfID, "beta"} {
+			ss := SessSpec{Cost: 2, NodeCost: map[string]float64{"alpha": 0.5}, HasAllowed: true, Allowed: []string{"alpha", "", selfID}, Transport: tr}
+			cs := newC11(0, "transport:"+tr, []SessSpec{ss, {Cost: 1}})
+			cs.seq = false
+			cs.spec.SockGrace = true
+			cs.spec.SettleMs = 60
+			cs.handshake(0, id, nil)
+			if id == "alpha" {
+				cs.expect[0] = "open"
+				datagram := tr == "udp" || tr == "udp-dial"
+				if !datagram {
+					cs.hang(0)
+					cs.expect[0] = "closed"
+					cs.handshake(1, "alpha", nil)
+					cs.expect[1] = "open"
+				} else {
+					cs.handshake(1, "alpha", nil)
+					cs.expect[1] = "rejected"
+				}
+			} else {
+				cs.expect[0] = "rejected"
+			}
+			add(cs)
+		}
+	}
+	// a backend configured with a non-positive cost: runProtocol refuses to run, nothing is admitted
+	for _, cost := range []float64{0, -1} {
+		cs := newC11(0, "nonpositive-cost", []SessSpec{{Cost: cost}, {Cost: 1}})
+		cs.seq = false
+		cs.actions = append(cs.actions, "s0: backend with cost <= 0 (never read from)")
+		cs.spec.SettleMs = 50
+		cs.handshake(1, "alpha", nil)
+		cs.expect[1] = "open"
+		add(cs)
 	}
 	// D. generated scenarios
 	n := 250
@@ -508,7 +587,7 @@ func (cs *c11Case) term(o *CaseObs) (string, bool, string) {
 
 func runC11(c *Ctx) {
 	im := NewImpl("C11", c.Seed, c.Tier)
-	im.Rule = "scenarios on a real node in a child process with a well-behaved peer B and 1..4 scripted sessions: (A) admission matrix allow-list x per-node cost x cost x announced ID; (B) 12 post-establishment behaviours x cost configurations, then a newcomer under the same ID; (C) 2..3 sessions with equal/different/inadmissible IDs, every order of handshake release x every order of departure; (D) generated configurations and schedules (handshakes, direct/relayed updates, reject messages, hang-ups, other datagrams); (E) racy: 2..4 same-ID handshakes, and handshake+hang-up, released without barriers (oracle only); (F) gate race: up to 600 rounds (6 s) of 6..8 same-ID sessions whose handshakes are released at the same instant through a spin gate inside Recv, survivors proved established by a delivered packet, entry listed exactly once while one is alive and gone after the last ends; (G) late-cancel stress and same-ID meshes; (H) session endings: Recv io.EOF / Recv error / Send error / context cancelled / idle timeout x before handshake / established one-sided / both ways / data flowing: closed and gone from Connections and own row within 0.5 s (idle: limit + monitor period), from the routing table within 1 s more, same ID re-admitted at once; non-trivial = at least one handshake released; distinct by configuration and schedule"
+	im.Rule = "scenarios on a real node in a child process with a well-behaved peer B and 1..4 scripted sessions: (A) admission matrix allow-list x per-node cost x cost x announced ID; (B) 12 post-establishment behaviours x cost configurations, then a newcomer under the same ID; (C) 2..3 sessions with equal/different/inadmissible IDs, every order of handshake release x every order of departure; (D) generated configurations and schedules (handshakes, direct/relayed updates, reject messages, hang-ups, other datagrams); (E) racy: 2..4 same-ID handshakes, and handshake+hang-up, released without barriers (oracle only); (F) gate race: up to 400 rounds (4 s) of 6..8 same-ID sessions whose handshakes are released at the same instant through a spin gate inside Recv, survivors proved established by a delivered packet, entry listed exactly once while one is alive and gone after the last ends; (G) late-cancel stress and same-ID meshes; (H) session endings: Recv io.EOF / Recv error / Send error / context cancelled / idle timeout x before handshake / established one-sided / both ways / data flowing: closed and gone from Connections and own row within 0.5 s (idle: limit + monitor period), from the routing table within 1 s more, same ID re-admitted at once; non-trivial = at least one handshake released; distinct by configuration and schedule"
 	cf := &CaseFile{Dir: c.Out, Prop: "C11", Imports: []string{"Model.Admit"}, CaseType: "admit_case", CheckFn: "admit_check", PerShard: 150}
 	cases := genCases(c)
 	specs := make([]CaseSpec, len(cases))
@@ -518,6 +597,15 @@ func runC11(c *Ctx) {
 	dir, err := os.MkdirTemp("", "c11-run-")
 	Must(err)
 	defer os.RemoveAll(dir)
+	type endings struct {
+		jobs []endingJob
+		res  []endingResult
+	}
+	endCh := make(chan endings, 1)
+	go func() {
+		j, r := runEndings(c.Thorough())
+		endCh <- endings{j, r}
+	}()
 	res, reruns := RunCasesConfirmed(dir, specs, 8, 8)
 	im.Extra["timing_suspects_rerun_alone"] = reruns
 	for i, cs := range cases {
@@ -573,7 +661,8 @@ func runC11(c *Ctx) {
 		lbl, _ := json.Marshal(map[string]interface{}{"kind": cs.kind, "sessions": cs.spec.Sessions, "actions": cs.actions})
 		cf.Add(term, string(lbl))
 	}
-	sessionEndings(c, im)
+	e := <-endCh
+	reportEndings(im, e.jobs, e.res)
 	gateRace(c, im)
 	lateCancel(c, im)
 	sameIDMesh(c, im)
